@@ -150,6 +150,7 @@ static bool fault_here(const char* call, int64_t* param) {
     else if (!strcmp(call, "opendir")) match = f == "opendir_emfile";
     else if (!strcmp(call, "readdir")) match = f == "readdir_eio";
     else if (!strcmp(call, "clock_gettime")) match = f == "clock_fail";
+    else if (!strcmp(call, "close") || !strcmp(call, "closedir")) match = f == "close_fail";
     if (!match || nth != g_cur_op->fault_nth) return false;
     *param = g_cur_op->fault_param;
     if (S) S->faults_fired++;
@@ -187,7 +188,12 @@ int __wrap_open(const char* p, int fl, ...) {
     int64_t prm; if (fault_here("open", &prm)) { S->fault_kind[F_EMFILE]++; note("open", p, -1, -EMFILE); errno = EMFILE; return -1; }
     int r = __real_open(p, fl, m); note("open", p, -1, r); return r;
 }
-int __wrap_close(int fd) { if (!sut()) return __real_close(fd); int r = __real_close(fd); note("close", nullptr, fd, r); return r; }
+int __wrap_close(int fd) {
+    if (!sut()) return __real_close(fd);
+    // injected failure: the descriptor stays open (as after an EINTR that hit before anything was released)
+    int64_t prm; if (fault_here("close", &prm)) { S->fault_kind[F_EINTR]++; note("close", nullptr, fd, -EINTR); errno = (int)prm ? (int)prm : EINTR; return -1; }
+    int r = __real_close(fd); note("close", nullptr, fd, r); return r;
+}
 static ssize_t cut_iov(ssize_t (*f)(int, const struct iovec*, int), int fd, const struct iovec* iov, int cnt, size_t k) {
     std::vector<struct iovec> v; size_t left = k;
     for (int i = 0; i < cnt && left > 0; i++) { struct iovec e = iov[i]; if (e.iov_len > left) e.iov_len = left; left -= e.iov_len; v.push_back(e); }
@@ -233,7 +239,11 @@ struct dirent* __wrap_readdir(DIR* d) {
     if (e && g_dtype_unknown) { e->d_type = DT_UNKNOWN; S->fault_kind[F_DTYPE_UNKNOWN]++; }
     return e;
 }
-int __wrap_closedir(DIR* d) { if (!sut()) return __real_closedir(d); int r = __real_closedir(d); note("closedir", nullptr, -1, r); return r; }
+int __wrap_closedir(DIR* d) {
+    if (!sut()) return __real_closedir(d);
+    int64_t prm; if (fault_here("closedir", &prm)) { S->fault_kind[F_EINTR]++; note("closedir", nullptr, -1, -EINTR); errno = (int)prm ? (int)prm : EINTR; return -1; }
+    int r = __real_closedir(d); note("closedir", nullptr, -1, r); return r;
+}
 int __wrap_mkdir(const char* p, mode_t m) { if (!sut()) return __real_mkdir(p, m); int r = __real_mkdir(p, m); note("mkdir", p, -1, r ? -errno : 0); return r; }
 int __wrap_rmdir(const char* p) { if (!sut()) return __real_rmdir(p); int r = __real_rmdir(p); note("rmdir", p, -1, r ? -errno : 0); return r; }
 int __wrap_unlink(const char* p) { if (!sut()) return __real_unlink(p); int r = __real_unlink(p); note("unlink", p, -1, r ? -errno : 0); return r; }
